@@ -3,7 +3,7 @@
 # check only pays the ~20 s re-codegen of ipa-core itself.  Nothing is fetched.
 set -e
 export IPA_VERIF_DIR="$(cd "$(dirname "$0")" && pwd)"
-export IPA_VERIF_REPLAY="$IPA_VERIF_DIR/replays/empty.rs"
+export IPA_VERIF_REPLAY_DIR="$IPA_VERIF_DIR/replays/slots"
 export CARGO_NET_OFFLINE=true
 WORK="${IPA_VERIF_WORK:-/var/tmp/ipa-verif}"
 mkdir -p "$WORK" "$IPA_VERIF_DIR/evidence"
